@@ -6,7 +6,7 @@ LEAN_MODULES = ['C01', 'C01b']
 RULE = ('one case = 2-4 REAL nodes (KeyspaceGroup + MemStore + Clock + datacake_rpc Server with the real ConsistencyService and ReplicationService on loopback; no chitchat), 3-25 events: client put/del/put_many/del_many '
         'applied locally exactly as ReplicatedStoreHandle does (stamps from the real clocks are fed to the model), their replication messages delivered / dropped / duplicated / reordered / batched through the real RPC clients, '
         'purges, late deliveries, anti-entropy exchanges in the middle of the history (so that later polls meet trackers); then - after the last operation - every ordered pair (j,i) completes one anti-entropy exchange (real poll_keyspace -> get_state -> Diff -> handle_removals / handle_modified with fetch_docs) '
-        'in a random order of pairs, with the two halves in either order or concurrent (production path), interleaved with further late deliveries. After every event each touched node is read (set, metadata, documents) and '
+        '(a third of the cases spread the operations over two or three keyspaces of the nodes: one exchange covers them all) in a random order of pairs, with the two halves in either order or concurrent (production path), interleaved with further late deliveries. After every event each touched node is read (set, metadata, documents) and '
         'compared with the Lean cluster model; at the end every node must return exactly the LWW documents of all issued operations (Lean oracle `lww`). quick: 150 schedules + all exchange orders for 3 nodes on 6 base '
         'histories; non-trivial = at least one message lost or reordered and at least one conflict on an id; distinct by hash')
 ASSUMPTIONS = ['the background timers (1 s batching, repair interval) and chitchat are not modelled: the events of a case are the things those timers trigger',
@@ -34,10 +34,18 @@ def gen_case(rng, idx, fixed_pairs=None):
     n = rng.range(2, 4)
     ids = [1, 2, 3][:rng.range(1, 3)]
     lines = ['case %d cluster' % idx, 'nodes %d' % n]
-    nops = 0
-    origin = []    # origin node of every issued operation
-    pending = []   # (target, op index) not yet delivered
+    # a node holds several keyspaces and one anti-entropy exchange covers all of them: a third of the cases use two or three
+    spaces = ['ks'] if rng.chance(2, 3) else ['ks', 'kb', 'kc'][:rng.range(2, 3)]
+    st = {sp: dict(nops=0, origin=[], pending=[]) for sp in spaces}   # per keyspace: op indices are per keyspace
+    cur = ['ks']
+
+    def use(sp):
+        if sp != cur[0]:
+            lines.append('ks %s' % sp); cur[0] = sp
+        return st[sp]
+
     for _ in range(rng.range(2, 12)):
+        k_sp = use(rng.choice(spaces))
         i = rng.below(n)
         k = rng.below(10)
         if k < 4: lines.append('put %d %d %s' % (i, rng.choice(ids), '%02x' % rng.below(256)))
@@ -45,23 +53,23 @@ def gen_case(rng, idx, fixed_pairs=None):
         elif k < 8: lines.append('mput %d %s' % (i, ','.join('%d:%02x' % (d, rng.below(256)) for d in rng.shuffle(ids)[:rng.range(1, len(ids))])))
         else: lines.append('mdel %d %s' % (i, ','.join(str(d) for d in rng.shuffle(ids)[:rng.range(1, len(ids))])))
         for j in range(n):
-            if j != i: pending.append((j, nops))
-        origin.append(i)
-        nops += 1
+            if j != i: k_sp['pending'].append((j, k_sp['nops']))
+        k_sp['origin'].append(i)
+        k_sp['nops'] += 1
         # fate of some pending messages: deliver now, later (reordered), twice, never
-        pending = rng.shuffle(pending)
+        k_sp['pending'] = rng.shuffle(k_sp['pending'])
         for _ in range(rng.below(3)):
-            if not pending: break
-            (j, k2) = pending.pop()
+            if not k_sp['pending']: break
+            (j, k2) = k_sp['pending'].pop()
             fate = rng.below(5)
             if fate == 0: continue                       # lost
             lines.append('deliver %d %d' % (j, k2))
             if fate == 1: lines.append('deliver %d %d' % (j, k2))   # duplicated
-            if fate == 2: pending.insert(0, (j, k2))     # will be delivered again later
-        if rng.chance(1, 5) and nops >= 1:
+            if fate == 2: k_sp['pending'].insert(0, (j, k2))     # will be delivered again later
+        if rng.chance(1, 5) and k_sp['nops'] >= 1:
             # the distributor of a node batches that node's OWN mutations, in issue order
             frm = rng.below(n); to = (frm + 1 + rng.below(n - 1)) % n
-            own = [x for x in range(nops) if origin[x] == frm]
+            own = [x for x in range(k_sp['nops']) if k_sp['origin'][x] == frm]
             if own:
                 pick = sorted(set(rng.choice(own) for _ in range(rng.range(1, 3))))
                 lines.append('batch %d %d %s' % (frm, to, ','.join(map(str, pick))))
@@ -72,17 +80,21 @@ def gen_case(rng, idx, fixed_pairs=None):
             m = rng.below(3)
             lines.append('repair %d %d %d' % (j, i2, m) if m < 2 else 'repairc %d %d' % (j, i2))
         if rng.chance(1, 4): lines.append('read %d' % rng.below(n))
-    # quiescence: every ordered pair completes an exchange, late deliveries in between
+    # quiescence: every ordered pair completes an exchange (each covers every keyspace), late deliveries in between
     pairs = fixed_pairs if fixed_pairs is not None else rng.shuffle([(j, i) for j in range(n) for i in range(n) if i != j])
     pairs = [(j, i) for (j, i) in pairs if j < n and i < n]
     for (j, i) in pairs:
-        if pending and rng.chance(1, 3):
-            (jj, k2) = pending.pop(); lines.append('deliver %d %d' % (jj, k2))
+        sp = rng.choice(spaces)
+        if st[sp]['pending'] and rng.chance(1, 3):
+            use(sp)
+            (jj, k2) = st[sp]['pending'].pop(); lines.append('deliver %d %d' % (jj, k2))
         m = rng.below(3)
         lines.append('repair %d %d %d' % (j, i, m) if m < 2 else 'repairc %d %d' % (j, i))
         lines.append('read %d' % j)
-    for j in range(n):
-        lines.append('converged %d' % j)
+    for sp in spaces:
+        use(sp)
+        for j in range(n):
+            lines.append('converged %d' % j)
     lines.append('end')
     return lines
 
@@ -157,6 +169,7 @@ def canon(line, out):
 def oracle(case, impl):
     bad = []
     finals = {}
+    cur_ks = 'ks'
     for line, out in zip(case, impl):
         if out.startswith(('crash', 'panic', 'timeout')) or out == 'err':
             bad.append('%s: %s' % (line[:80], out)); continue
@@ -174,10 +187,12 @@ def oracle(case, impl):
                 bad.append('%s: set and store of the node disagree: %s' % (line, out[:160]))
         if line.startswith('staterace') and canon(line, out) != 'race safe':
             bad.append('%s: the GetState reply carries the peer\'s final change stamp but not its final state (%s): the poller records the stamp and skips the keyspace from then on' % (line, out[:90]))
+        if line.startswith('ks '): cur_ks = line.split()[1]
         if line.startswith('converged'):
-            finals[line.split()[1]] = out
-    if len(set(finals.values())) > 1:
-        bad.append('after all exchanges the nodes return different documents: %s' % finals)
+            finals.setdefault(cur_ks, {})[line.split()[1]] = out
+    for sp, f in finals.items():
+        if len(set(f.values())) > 1:
+            bad.append('after all exchanges the nodes return different documents in keyspace %s: %s' % (sp, f))
     return bad
 
 
